@@ -428,7 +428,10 @@ func claimed(fc FuncClaim, o *Obligation) bool {
 				return true
 			}
 		}
-		return o.Kind == "cover"
+		// what the selected obligations are proved FROM must be proved too: a loop invariant that fails to establish, or a
+		// callee precondition that does not hold, would otherwise be assumed unchecked and make the selected ones vacuous
+		// (this is how a seeded change in resolveUnionBatch slipped through an `only: [assert@...]` claim)
+		return o.Kind == "cover" || o.Kind == "loop" || o.Kind == "requires"
 	}
 	return true
 }
